@@ -30,6 +30,7 @@ func init() {
 		Assumptions: []string{"resource.Value/Collection write semantics (C02, C05)", "unitpb.Convert32 arithmetic (C18)"},
 		Run:         runC20,
 		Controls: []Control{
+			{Name: "refused-dispense-merged-without-reset", File: "pkg/trait/vendingpb/model.go", Old: "\t\t\tproto.Reset(newVal)\n\t\t\tproto.Merge(newVal, oldVal)\n", New: "\t\t\tproto.Merge(newVal, oldVal)\n", Expect: "R20.21"},
 			{Name: "revert-F66-step-added-unreduced", File: "pkg/trait/modepb/model_server.go", Old: "newI := (int32(i) + adjustment%int32(len(values))) % int32(len(values))", New: "newI := (int32(i) + adjustment) % int32(len(values))", Expect: "R20.20"},
 			{Name: "zero-amount-converts-between-anything", File: "pkg/trait/vendingpb/unitpb/convert.go", Old: "\tif from == to {\n\t\treturn v, nil", New: "\tif from == to || v == 0 {\n\t\treturn v, nil", Expect: "R20.14"},
 			{Name: "fanspeed-defaults-after-callers-options", File: "pkg/trait/fanspeedpb/model_opts.go", Old: "\targs.apply(DefaultModelOptions...)\n\targs.apply(opts...)\n", New: "\targs.apply(opts...)\n\targs.apply(DefaultModelOptions...)\n", Expect: "R20.19"},
@@ -68,6 +69,8 @@ func runC20(c *an.Ctx) {
 	r2017(c, "R20.17")
 	r2018(c, "R20.18")
 	c.Min("R20.18", 3)
+	r2021(c, "R20.21")
+	c.Min("R20.21", 1)
 	r2020(c, "R20.20")
 	c.Min("R20.20", 1)
 	rDefaultsFirst(c, "R20.19", "pkg/trait")
@@ -668,7 +671,24 @@ func r205and7(c *an.Ctx) {
 	}
 	// removal sites: copy(list[i:], list[i+1:]) or append(list[:i], list[i+1:]...)
 	removalSites := func(fn *ssa.Function) []ssa.CallInstruction {
-		out := an.CallsTo(fn, "builtin copy")
+		var out []ssa.CallInstruction
+		// (a copy of the whole list - copy(fresh, list) - is no removal: the destination starts one before the source)
+		for _, call := range an.CallsTo(fn, "builtin copy") {
+			a := call.Common().Args
+			if len(a) != 2 {
+				continue
+			}
+			dst, ok1 := a[0].(*ssa.Slice)
+			src, ok2 := a[1].(*ssa.Slice)
+			if !ok1 || !ok2 || dst.Low == nil || src.Low == nil {
+				continue
+			}
+			if add, isAdd := src.Low.(*ssa.BinOp); isAdd && add.Op == token.ADD && add.X == dst.Low {
+				if one, isC := an.ConstInt(add.Y); isC && one == 1 {
+					out = append(out, call)
+				}
+			}
+		}
 		for _, call := range an.CallsTo(fn, "builtin append") {
 			a := call.Common().Args
 			if len(a) != 2 {
@@ -2394,4 +2414,55 @@ func r2020(c *an.Ctx, rule string) {
 	}
 	c.Check(bad == nil && uses > 0, rule, "pkg/trait/modepb|a relative step is reduced before it is added", pos, fmt.Sprintf("%d arithmetic uses of the raw step, none a 32-bit addition", uses),
 		"the step is added to the index as it comes from the request and only the sum is reduced: for steps near the int32 limits the addition overflows and the wrapped index is wrong")
+}
+
+// r2021: a refused dispense leaves the stock as it was. The interceptor has let updateStock write into `new` before
+// the conversion of the second quantity failed; putting things back is proto.Reset(new) followed by
+// proto.Merge(new, old). Merge alone only ADDS: a field the partial update has set stays set wherever old has the
+// zero value (used.amount 0), so the refused dispense is half applied. Every proto.Merge(new, old) of an
+// interceptor's own arguments in the vending package is dominated by a proto.Reset of the same `new`.
+func r2021(c *an.Ctx, rule string) {
+	n := 0
+	for _, fn := range c.Prog.FuncsIn("pkg/trait/vendingpb") {
+		if c.Prog.IsGenerated(fn.Pos()) || fn.Parent() != nil {
+			continue
+		}
+		for _, kind := range []string{"InterceptBefore", "InterceptAfter"} {
+			for _, ic := range interceptorBodies(fn, kind) {
+				for _, f := range an.WithClosures(ic.fn) {
+					an.Instrs(f, func(in ssa.Instruction) {
+						call, ok := in.(*ssa.Call)
+						if !ok || !strings.HasSuffix(an.CalleeName(call), "protobuf/proto.Merge") || len(call.Call.Args) != 2 {
+							return
+						}
+						isParam := func(v ssa.Value, p *ssa.Parameter) bool {
+							for _, s := range an.Sources(v) {
+								if s == ssa.Value(p) {
+									return true
+								}
+							}
+							return false
+						}
+						if !isParam(call.Call.Args[0], ic.new) || !isParam(call.Call.Args[1], ic.old) {
+							return
+						}
+						n++
+						reset := false
+						an.Instrs(f, func(x ssa.Instruction) {
+							rc, isCall := x.(*ssa.Call)
+							if isCall && strings.HasSuffix(an.CalleeName(rc), "protobuf/proto.Reset") && len(rc.Call.Args) == 1 && isParam(rc.Call.Args[0], ic.new) && an.Dominates(rc, call) {
+								reset = true
+							}
+						})
+						c.SawFunc(an.FuncName(ic.fn))
+						c.Check(reset, rule, fmt.Sprintf("%s|restoring the old value starts from an empty message", an.FuncName(ic.fn)), call.Pos(), "proto.Reset(new) dominates proto.Merge(new, old)",
+							"the old value is merged back into a `new` that still holds what the failed update wrote: proto.Merge leaves those fields alone wherever the old value is zero, so a refused dispense is stored half applied")
+					})
+				}
+			}
+		}
+	}
+	if n == 0 {
+		c.Unk(rule, "pkg/trait/vendingpb|restore on refusal", 0, "no proto.Merge(new, old) found in an interceptor of the vending package")
+	}
 }
